@@ -82,6 +82,33 @@ func (ex *Exec) seqSort(elem *Sort) *Sort { return ex.p.ArraySort(IntSort, elem)
 // sliceSeq: the backing array of a slice (indexing must add the offset).
 func (ex *Exec) sliceBacking(st *State, s *Term, elem types.Type) *Term {
 	p := ex.p
+	if len(ex.constBacking) > 0 {
+		var viaRef func(ref *Term) *Term
+		viaRef = func(ref *Term) *Term {
+			if c, ok := ex.constBacking[ref]; ok {
+				return c
+			}
+			if ref.Op == "ite" {
+				a, b := viaRef(ref.Args[1]), viaRef(ref.Args[2])
+				if a != nil || b != nil {
+					name := "[]" + shortTypeName(elem)
+					rs := p.ArraySort(IntSort, p.ArraySort(IntSort, ex.tm.SortOf(elem)))
+					r := ex.getRegion(st, name, rs)
+					if a == nil {
+						a = p.Select(r, ref.Args[1])
+					}
+					if b == nil {
+						b = p.Select(r, ref.Args[2])
+					}
+					return p.Ite(ref.Args[0], a, b)
+				}
+			}
+			return nil
+		}
+		if c := viaRef(p.Acc(s, 0)); c != nil {
+			return c
+		}
+	}
 	name := "[]" + shortTypeName(elem)
 	rs := p.ArraySort(IntSort, p.ArraySort(IntSort, ex.tm.SortOf(elem)))
 	r := ex.getRegion(st, name, rs)
@@ -96,14 +123,19 @@ func (ex *Exec) sliceSeq(st *State, s *Term, elem types.Type) *Term {
 	if off.Op == "int" && off.Int.Sign() == 0 {
 		return b
 	}
-	key := fmt.Sprintf("%d/%d", b.id, off.id)
-	if sh, ok := ex.shiftCache[key]; ok {
-		return sh
+	// shifted view as an uninterpreted function with one global axiom per element sort (well-scoped also when
+	// the slice term mentions quantified variables)
+	f := p.Func("shiftArr:"+ex.tm.SortOf(elem).String(), []*Sort{b.Sort, IntSort}, b.Sort)
+	akey := "shift-axiom:" + b.Sort.String()
+	if !ex.shiftAxiomDone[akey] {
+		ex.shiftAxiomDone[akey] = true
+		bb := p.BoundVar("b", b.Sort)
+		oo := p.BoundVar("o", IntSort)
+		ii := p.BoundVar("i", IntSort)
+		sel := p.Select(p.App(f, bb, oo), ii)
+		ex.facts = append(ex.facts, p.Forall([]*Term{bb, oo, ii}, p.Eq(sel, p.Select(bb, p.Add(oo, ii))), []*Term{sel}))
 	}
-	sh := p.Fresh("shift", b.Sort)
-	ex.shiftCache[key] = sh
-	i := p.BoundVar("i", IntSort)
-	ex.facts = append(ex.facts, p.Forall([]*Term{i}, p.Eq(p.Select(sh, i), p.Select(b, p.Add(off, i))), []*Term{p.Select(sh, i)}))
+	sh := p.App(f, b, off)
 	return sh
 }
 
@@ -1383,6 +1415,13 @@ func (ex *Exec) copyOp(st *State, cc *ssa.CallCommon, args []Val, pos string) Va
 		p.Ite(p.And(p.Le(off, i), p.Lt(i, p.Add(off, n))), p.Select(sseq, p.Sub(i, off)), p.Select(dArr, i))), []*Term{p.Select(nArr, i)}))
 	st.heap[name] = p.Ite(p.Eq(p.Acc(dst, 0), p.Int(0)), r, p.Store(r, p.Acc(dst, 0), nArr))
 	ex.frameCheck(st, name, p.Acc(dst, 0), pos)
+	if o := p.Acc(dst, 1); o.Op == "int" && o.Int.Sign() == 0 {
+		if dl := p.Acc(dst, 2); dl.Op == "int" {
+			// whole-array copy: remembered so that a later conversion of the array to an abstract hash / address
+			// value is the value of the source bytes
+			ex.wholeCopy[nArr] = wholeCopy{src: sseq, srcLen: p.Acc(src, 2), width: dl.Int.Int64()}
+		}
+	}
 	if origin, ok := ex.sliceOrigin[p.Acc(dst, 0)]; ok {
 		// write-through: the destination is the byte view of a hash/address variable
 		var back *Term
@@ -1429,6 +1468,11 @@ func (ex *Exec) bytesOfAbstract(h *Term) *Term {
 			ex.assumptions["hashOf(hb(h)) == h"] = true
 			x := p.BoundVar("h", ex.tm.HashS)
 			ex.facts = append(ex.facts, p.Forall([]*Term{x}, p.Eq(p.App(g, p.App(f, x)), x), []*Term{p.App(f, x)}))
+			// and the bytes of the hash made from a byte array are that array's first 32 bytes
+			a := p.BoundVar("a", arrS)
+			i := p.BoundVar("i", IntSort)
+			sel := p.Select(p.App(f, p.App(g, a)), i)
+			ex.facts = append(ex.facts, p.Forall([]*Term{a, i}, p.Implies(p.And(p.Le(p.Int(0), i), p.Lt(i, p.Int(32))), p.Eq(sel, p.Select(a, i))), []*Term{sel}))
 		}
 		return p.App(f, h)
 	}
